@@ -49,6 +49,8 @@ def _worker(args):
     rng = random.Random(seed)
     W, AW = widths(dev)
     items = []
+    vet = classes[dev]()        # one long-lived instance: decimal results must not depend on its past
+    prev = None
     for (a, m, c) in triples:
         opc = rng.choice(ops)
         case = gen_case(rng, dev, opc, modes, ('step',), decimal=True)
@@ -76,12 +78,22 @@ def _worker(args):
         reads = [int(e.split(':')[1]) for e in mem.log if e.startswith('r:')]
         if not reads or mem.peek(reads[-1]) != m or reads[-1] != ea:
             continue                         # pointer bytes moved under us; skip
-        items.append((case, opc, a, m, c, mpu.a, mpu.p))
+        items.append((case, opc, a, m, c, mpu.a, mpu.p, None))
+        vmem = RecMem(case.seed, W, case.ov)
+        try:
+            vet.memory = vmem
+            vet.a, vet.x, vet.y, vet.sp, vet.p, vet.pc = case.a, case.x, case.y, case.sp, case.p, case.pc
+            vet.step()
+            if (vet.a, vet.p) != (mpu.a, mpu.p):
+                items.append((case, opc, a, m, c, vet.a, vet.p, prev))
+        except Exception:
+            vet = classes[dev]()
+        prev = case.to_json()
     lines = ['dec %s %s %d %d %d' % (modes[o][0].lower(), 'nmos' if dev == '6502' else 'cmos', a, m, c)
-             for (_, o, a, m, c, _, _) in items]
+             for (_, o, a, m, c, _, _, _) in items]
     replies = run_driver(lines)
     out = dict(n=len(items), findings=[], sig=set())
-    for (case, opc, a, m, c, ra, rp), rep in zip(items, replies):
+    for (case, opc, a, m, c, ra, rp, hist), rep in zip(items, replies):
         ea_, ec, en, ev, ez = (int(x) for x in rep.split())
         got = dict(a=ra, c=rp & 1, n=(rp >> 7) & 1, v=(rp >> 6) & 1, z=(rp >> 1) & 1)
         exp = dict(a=ea_, c=ec, n=en, v=ev, z=ez)
@@ -94,10 +106,16 @@ def _worker(args):
             key = dict(dev=dev, aspect='decimal', fields=','.join(diff))
             if dev == '65C02' and set(diff) <= {'n', 'z'}:
                 key = dict(dev=dev, aspect='decimal-nz')
+            note = ''
+            rpl = dict(case=case.to_json(), a=a, m=m, c=c, expected=exp, got=got)
+            if hist is not None:
+                key = dict(dev=dev, aspect='decimal-history', fields=','.join(diff))
+                note = ' [on an instance that executed other decimal operations before; a fresh instance differs]'
+                rpl['previous_case_on_the_same_instance'] = hist
             out['findings'].append(dict(
                 key=key,
-                what='%s %s %s $%02x D=1 A=$%02x M=$%02x C=%d: got %s, Clark says %s' % (dev, name, mo, opc, a, m, c, got, exp),
-                replay=dict(case=case.to_json(), a=a, m=m, c=c, expected=exp, got=got)))
+                what='%s %s %s $%02x D=1 A=$%02x M=$%02x C=%d: got %s, Clark says %s%s' % (dev, name, mo, opc, a, m, c, got, exp, note),
+                replay=rpl))
     out['sig'] = list(out['sig'])
     return out
 
